@@ -11,5 +11,5 @@ CONSTANTS
   SwitchFaithful = TRUE
   ClosePatient = TRUE
   TrimMayFail = FALSE
-INVARIANTS ConformRet ConformDisk ConformMem ConformDown
+INVARIANTS ConformNote ConformRet ConformDisk ConformMem ConformDown
 CHECK_DEADLOCK TRUE
